@@ -91,14 +91,14 @@ theorem recvLoopA_io (σ : BState) (buf : Bytes) (cs : List Bytes) (k j : Nat)
       · simp only [hc] at h
         exact ih _ _ h
 
-theorem flatScript_cons (cs : List Bytes) (p : Piece) (more : List Piece) :
+theorem flatScript_cons (cs : List Bytes) (p : ScriptPiece) (more : List ScriptPiece) :
     flatScript cs (p :: more) = cs ++ flatScript p.1 more := by
   simp [flatScript]
 
 /-- **one logical receive, any number of failed reads**: item, buffer and builder state are those of
 one uninterrupted call on the script without the failures, and what is left of the script is what
 that call leaves -/
-theorem recvRetryA_eq (more : List Piece) (σ : BState) (buf : Bytes) (cs : List Bytes) (t : Term)
+theorem recvRetryA_eq (more : List ScriptPiece) (σ : BState) (buf : Bytes) (cs : List Bytes) (t : Term)
     (hio : IoChain t more) :
     (recvRetryA σ buf cs t more).1 = (recvLoopA σ buf (flatScript cs more) (lastTerm t more)).1 ∧
     (recvRetryA σ buf cs t more).2.1 = (recvLoopA σ buf (flatScript cs more) (lastTerm t more)).2.1 ∧
@@ -152,7 +152,7 @@ theorem recvRetryA_eq (more : List Piece) (σ : BState) (buf : Bytes) (cs : List
 /-- **the whole session**: calling again after every failed read gives the session of the script
 without the failures -/
 theorem sessionRetryA_eq (fuel : Nat) (extra : Nat) (σ : BState) (buf : Bytes) (cs : List Bytes) (t : Term)
-    (more : List Piece) (hio : IoChain t more) :
+    (more : List ScriptPiece) (hio : IoChain t more) :
     sessionRetryA fuel extra σ buf cs t more = sessionA fuel extra σ buf (flatScript cs more) (lastTerm t more) := by
   induction fuel generalizing extra σ buf cs t more with
   | zero => simp [sessionRetryA, sessionA]
